@@ -303,7 +303,7 @@ def c08():
 @reg("C19")
 def c19():
     t0 = time.time()
-    cov, v1 = wallethist.check("C19", profile=["mint", "send", "receive", "melt", "checkmelt", "reclaim", "removespent", "rotate", "restore", "sendlocked"],
+    cov, v1 = wallethist.check("C19", profile=["mint", "send", "receive", "melt", "checkmelt", "reclaim", "removespent", "rotate", "restore", "sendlocked", "sendhtlc", "mintswap"],
                                collect=True)
     cov2, v2 = wcrash.check("C19")
     cm = wcrash.counter_model()
@@ -326,7 +326,7 @@ def c19():
 def c18():
     t0 = time.time()
     cov1, v1, _ = wallethist.check_send_cases("C18")
-    cov2, v2 = wallethist.check("C18", profile=["mint", "send", "sendlocked", "receive", "rotate"], fees=(0, 100, 250, 500, 1000, 2000), collect=True,
+    cov2, v2 = wallethist.check("C18", profile=["mint", "send", "sendlocked", "sendhtlc", "receive", "rotate"], fees=(0, 100, 250, 500, 1000, 2000), collect=True,
                                 num=30 if tier() == "quick" else 800)
     cov = dict(cov1)
     for k in ("states", "transitions", "traces_validated_against_impl", "evaluations", "distinct_nontrivial"):
